@@ -2,3 +2,12 @@
 import NemoVerif.Py.Val
 import NemoVerif.Theorems.C04
 import NemoVerif.Drive.C04
+import NemoVerif.Models.Dispatch
+import NemoVerif.Models.FlowShape
+import NemoVerif.Models.Pipeline
+import NemoVerif.Lemmas.Pipeline
+import NemoVerif.Lemmas.PipelineTie
+import NemoVerif.Theorems.C01
+import NemoVerif.Drive.C01
+import NemoVerif.Drive.C02
+import NemoVerif.Drive.C03
